@@ -25,7 +25,12 @@ const SUBSET_BPS: &[u32] = &[16, 8, 12, 20, 24, 32];
 
 pub fn send(ch: &Choices, disk: &Disk, max_frames: u64, small: bool) -> Result<Vec<Sent>, String> {
     let n = 1 + ch.draw("c16.frames", max_frames);
-    let opts = match ch.draw("c16.opts", 4) {
+    let opts = match ch.draw("c16.opts", 5) {
+        4 => Options::default()
+            .max_partition_order(ch.draw("c16.part", 16) as u32)
+            .unwrap()
+            .max_lpc_order(*ch.pick("c16.lpc2", &[None, Some(32u8), Some(4)]))
+            .unwrap(),
         0 => Options::default(),
         1 => Options::fast(),
         2 => Options::best(),
@@ -46,7 +51,13 @@ pub fn send(ch: &Choices, disk: &Disk, max_frames: u64, small: bool) -> Result<V
                 probe("c16_parameter_change_between_frames");
             }
         }
-        let len = if small { 1 + ch.draw("c16.len.s", 24) as usize } else { 1 + ch.draw("c16.len", 200) as usize };
+        let len = if small {
+            1 + ch.draw("c16.len.s", 24) as usize
+        } else if ch.draw("c16.len.mode", 4) == 3 {
+            *ch.pick("c16.len.c", &[128usize, 256, 192, 576, 1152, 512])
+        } else {
+            1 + ch.draw("c16.len", 200) as usize
+        };
         let pcm = draw_pcm(ch, chn, bps, len);
         let before = disk.len(file);
         w.write(rate, chn, bps, &pcm.inter).map_err(|e| format!("frame {i} (rate={rate} ch={chn} bits={bps} len={len}): {e:?}"))?;
